@@ -4,7 +4,7 @@ From Coq Require Import Arith List Bool Lia Sorting.Sorted FinFun.
 From QV Require Import Core.Bits Core.Pauli.
 Import ListNotations.
 
-Definition XZY := [X; Z; Y].
+Definition XZY := [pX; pZ; pY].
 
 (* itertools.combinations(positions, w) *)
 Fixpoint combs (pos : list nat) (w : nat) : list (list nat) :=
@@ -20,8 +20,8 @@ Fixpoint fill (k i : nat) (qs : list nat) (ls : list pl) : list pl :=
   match k with
   | O => []
   | S k' => match qs, ls with
-            | q :: qs', l :: ls' => if i =? q then l :: fill k' (S i) qs' ls' else I :: fill k' (S i) qs ls
-            | _, _ => I :: fill k' (S i) qs ls
+            | q :: qs', l :: ls' => if i =? q then l :: fill k' (S i) qs' ls' else pI :: fill k' (S i) qs ls
+            | _, _ => pI :: fill k' (S i) qs ls
             end
   end.
 Definition block (i k w : nat) : list (list pl) :=
@@ -33,7 +33,7 @@ Definition ipauli (n lo hi : nat) : list (list pl) :=
 Fixpoint gen (k w : nat) : list (list pl) :=
   match k with
   | O => match w with O => [[]] | S _ => [] end
-  | S k' => map (cons I) (gen k' w) ++
+  | S k' => map (cons pI) (gen k' w) ++
             match w with O => [] | S w' => flat_map (fun l => map (cons l) (gen k' w')) XZY end
   end.
 
@@ -52,11 +52,11 @@ Proof.
     + intros [H1 H2]. destruct s as [|p t]; [discriminate|]. cbn in H1, H2.
       destruct p.
       * left. exists t. split; auto. apply IH. cbn in H2. lia.
-      * right. destruct w; [cbn in H2; lia|]. apply in_flat_map. exists X. split; [cbn; auto|].
+      * right. destruct w; [cbn in H2; lia|]. apply in_flat_map. exists pX. split; [cbn; auto|].
         apply in_map. apply IH. cbn in H2. lia.
-      * right. destruct w; [cbn in H2; lia|]. apply in_flat_map. exists Y. split; [cbn; auto|].
+      * right. destruct w; [cbn in H2; lia|]. apply in_flat_map. exists pY. split; [cbn; auto|].
         apply in_map. apply IH. cbn in H2. lia.
-      * right. destruct w; [cbn in H2; lia|]. apply in_flat_map. exists Z. split; [cbn; auto|].
+      * right. destruct w; [cbn in H2; lia|]. apply in_flat_map. exists pZ. split; [cbn; auto|].
         apply in_map. apply IH. cbn in H2. lia.
 Qed.
 
@@ -118,7 +118,7 @@ Proof.
     + apply in_map_iff in H. destruct H as (t & <- & Ht). destruct Hq as [<-|Hq]; [lia|]. specialize (IH _ _ _ _ Ht Hq). lia.
     + specialize (IH _ _ _ _ H Hq). lia.
 Qed.
-Lemma fill_skip k i qs ls : (forall q, In q qs -> S i <= q) -> fill (S k) i qs ls = I :: fill k (S i) qs ls.
+Lemma fill_skip k i qs ls : (forall q, In q qs -> S i <= q) -> fill (S k) i qs ls = pI :: fill k (S i) qs ls.
 Proof. intros H. cbn [fill]. destruct qs as [|q qs'], ls as [|l ls']; auto.
   destruct (i =? q) eqn:E; auto. apply Nat.eqb_eq in E. specialize (H q (or_introl eq_refl)). lia. Qed.
 Lemma fill_take k i qs l ls : fill (S k) i (i :: qs) (l :: ls) = l :: fill k (S i) qs ls.
